@@ -10,9 +10,10 @@ for pid in props:
     cf = os.path.join(V, 'harness', pid, 'CLAIM.json')
     if os.path.exists(cf):
         c.update(json.load(open(cf)))
-    has = bool(glob.glob(os.path.join(V, 'harness', pid, '*.json')))
+    hs = [f for f in sorted(glob.glob(os.path.join(V, 'harness', pid, '*.json'))) if os.path.basename(f) != 'CLAIM.json']
+    has = bool(hs)
     if c.get('claimed') and has:
-        specs = [json.load(open(f)) for f in sorted(glob.glob(os.path.join(V, 'harness', pid, '*.json')))]
+        specs = [json.load(open(f)) for f in hs]
         thorough = any(e.get('tier') == 'thorough' for s in specs for e in s['entries'])
         rec = {
             'property_id': pid,
